@@ -32,7 +32,7 @@ package taskfile
 //@   init locFailed := false
 //@   site NewNode#1 ghost locFailed := result.1 != nil
 //@   site (*Reader).include#1 ghost recFailed := result != nil
-//@   ensures recFailed ==> result != nil                                                                               [C08]
+//@   ensures recFailed ==> result != nil      -- optional excuses a MISSING file only: whatever goes wrong inside an included file (not trusted, cycle, bad version) is reported   [C08,C20,C16]
 //@   ensures locFailed && !include.Optional ==> result != nil                                                          [C08]
 
 // ---- C20: remote Taskfiles ---------------------------------------------------------------------------------
@@ -101,3 +101,12 @@ package taskfile
 //@ func (*Reader).include$1
 //@   site env.GetEnviron#1 ghost inclEnv := result
 //@   site (*Vars).Merge#1 requires arg0 == inclEnv && arg1 == vertex.Taskfile.Vars                              [C10]
+
+// ---- C20: looking for the remote file honours the caller's deadline (--timeout): every request is made with
+// the context that was passed in, so a server that accepts the connection and then stalls cannot hold Task up
+//@ func RemoteExists
+//@   site http.NewRequestWithContext#1 requires arg0 == ctx                                                    [C20]
+//@   nosite http.Head                                                                                          [C20]
+//@   nosite http.Get                                                                                           [C20]
+//@   nosite (*Client).Head                                                                                     [C20]
+//@   nosite (*Client).Get                                                                                      [C20]
